@@ -198,7 +198,8 @@ pub fn credential_validation(_cex: &Value) -> Result<String, String> {
   }
 }
 
-pub fn presentation_validation(_cex: &Value) -> Result<String, String> {
+pub fn presentation_validation(cex: &Value) -> Result<String, String> {
+  let only: Option<String> = cex.get("only").and_then(Value::as_str).map(str::to_owned);
   let r = no_panic(|| -> Vec<String> {
     let log = std::cell::RefCell::new(Vec::<String>::new());
     let validator = JwtPresentationValidator::with_signature_verifier(JwsVerifierFn::from(toy_verify));
@@ -265,10 +266,36 @@ pub fn presentation_validation(_cex: &Value) -> Result<String, String> {
     // vp.holder / vp.id duplicated inside the claim disagreeing with iss / jti
     let mut v: serde_json::Value = serde_json::from_str(&claims).unwrap();
     v["vp"]["holder"] = serde_json::Value::String(OTHER.to_owned());
-    expect("vp.holder disagrees with iss", run(&sign_jwt(&v.to_string(), Some(&kid), None, &method_key(HOLDER, "#auth")), &holder, &base()), false);
+    expect("[consistency] vp.holder disagrees with iss", run(&sign_jwt(&v.to_string(), Some(&kid), None, &method_key(HOLDER, "#auth")), &holder, &base()), false);
     let mut v: serde_json::Value = serde_json::from_str(&claims).unwrap();
     v["vp"]["id"] = serde_json::Value::String("https://example.org/p/2".to_owned());
-    expect("vp.id disagrees with jti", run(&sign_jwt(&v.to_string(), Some(&kid), None, &method_key(HOLDER, "#auth")), &holder, &base()), false);
+    expect("[consistency] vp.id disagrees with jti", run(&sign_jwt(&v.to_string(), Some(&kid), None, &method_key(HOLDER, "#auth")), &holder, &base()), false);
+    let mut v: serde_json::Value = serde_json::from_str(&claims).unwrap();
+    v["vp"]["id"] = v["jti"].clone();
+    expect("[consistency] vp.id equal to jti", run(&sign_jwt(&v.to_string(), Some(&kid), None, &method_key(HOLDER, "#auth")), &holder, &base()), true);
+    v.as_object_mut().unwrap().remove("jti");
+    expect("[consistency] vp.id present, jti absent", run(&sign_jwt(&v.to_string(), Some(&kid), None, &method_key(HOLDER, "#auth")), &holder, &base()), false);
+    let mut v: serde_json::Value = serde_json::from_str(&claims).unwrap();
+    v["vp"]["holder"] = v["iss"].clone();
+    expect("[consistency] vp.holder equal to iss", run(&sign_jwt(&v.to_string(), Some(&kid), None, &method_key(HOLDER, "#auth")), &holder, &base()), true);
+    // numeric dates of the presentation claims
+    for (name, nbf, iat, want) in [
+      ("[dates] nbf past year 9999 with a valid iat", Some(253402300800i64), Some(t0), false),
+      ("[dates] nbf at the end of year 9999", Some(253402300799i64), None, false), // in range but after the latest-issuance bound
+      ("[dates] iat only", None, Some(t0), true),
+      ("[dates] nbf takes precedence over an earlier iat", Some(t0 + 1), Some(t0), false),
+    ] {
+      let mut v: serde_json::Value = serde_json::from_str(&claims).unwrap();
+      v.as_object_mut().unwrap().remove("nbf");
+      v.as_object_mut().unwrap().remove("iat");
+      if let Some(n) = nbf {
+        v["nbf"] = serde_json::json!(n);
+      }
+      if let Some(n) = iat {
+        v["iat"] = serde_json::json!(n);
+      }
+      expect(name, run(&sign_jwt(&v.to_string(), Some(&kid), None, &method_key(HOLDER, "#auth")), &holder, &base()), want);
+    }
     let mut v: serde_json::Value = serde_json::from_str(&claims).unwrap();
     v["iss"] = serde_json::Value::String("not a did".to_owned());
     expect("iss is not a DID", run(&sign_jwt(&v.to_string(), Some(&kid), None, &method_key(HOLDER, "#auth")), &holder, &base()), false);
@@ -276,7 +303,10 @@ pub fn presentation_validation(_cex: &Value) -> Result<String, String> {
   });
   match r {
     Err(msg) => Ok(format!("presentation validation panicked: {msg}")),
-    Ok(log) if !log.is_empty() => Ok(format!("{} deviations, e.g. {}", log.len(), log[..log.len().min(4)].join("; "))),
+    Ok(log) if log.iter().any(|l| only.as_ref().map(|o| l.contains(o.as_str())).unwrap_or(true)) => {
+      let log: Vec<String> = log.into_iter().filter(|l| only.as_ref().map(|o| l.contains(o.as_str())).unwrap_or(true)).collect();
+      Ok(format!("{} deviations, e.g. {}", log.len(), log[..log.len().min(4)].join("; ")))
+    }
     Ok(_) => Err("presentation validation battery: all expectations met".to_owned()),
   }
 }
@@ -388,6 +418,12 @@ pub fn claims(cex: &Value) -> Result<String, String> {
       ("nbf one before year 0000", "nbf", -62167219201, false),
       ("nbf at the start of year 0000", "nbf", -62167219200, true),
     ] {
+      let mut v = base.clone();
+      v[field] = serde_json::json!(val);
+      v["iat"] = serde_json::json!(1262373804i64);
+      if accepts(&v) != want {
+        log.push(format!("[dates] {name} (valid iat alongside): {}", if want { "rejected" } else { "accepted" }));
+      }
       let mut v = base.clone();
       v[field] = serde_json::json!(val);
       if accepts(&v) != want {
